@@ -55,6 +55,7 @@ impl<'a> Stream<'a> {
 
     /// Words needed (upper bound) to evaluate `op` at `pos`.
     pub fn words_needed(&self, op: &Op) -> u64 {
+        let op = &op.norm();
         match op {
             Op::U32 => 1,
             Op::U64 => {
@@ -79,6 +80,7 @@ impl<'a> Stream<'a> {
     /// statement. More than one alternative only in the corner the statement leaves open
     /// (JitterRng fill_bytes(1..=4) with a half pending).
     pub fn expect(&self, pos: Pos, op: &Op) -> Vec<(Obs, Pos)> {
+        let op = &op.norm();
         let p = pos.words;
         let fam = self.info.family;
         match op {
